@@ -33,11 +33,12 @@ Proof. exact reserved_as_first_argument. Qed.
 (* batch size: more than 25 write requests are rejected, 25 or fewer never on that account *)
 Theorem C16_batch_limit_exact :
   forall lm s c reqs,
+    c_failure c = None ->
     forallb wreq_ok (flat_map snd reqs) = true ->
     (25 <? List.length (flat_map snd reqs) = true -> snd (batch_write lm s c reqs) = err_obs Validation) /\
     (25 <? List.length (flat_map snd reqs) = false ->
      snd (batch_write lm s c reqs) = err_obs Validation -> False \/
-     (match c_failure c with Some _ => [] | None => flat_map (prevalidate_table c) reqs end) <> [] \/
+     flat_map (prevalidate_table c) reqs <> [] \/
      exists c' un o, batch_write_tables lm s c reqs [] = (c', un, Some o)).
 Proof. exact batch_limit_exact. Qed.
 
@@ -46,7 +47,7 @@ Proof. exact batch_limits_agree. Qed.
 
 (* a write request that is neither or both put and delete is rejected, nothing is written *)
 Theorem C16_write_request_shape :
-  forall lm s c reqs, forallb wreq_ok (flat_map snd reqs) = false -> batch_write lm s c reqs = (c, err_obs Validation).
+  forall lm s c reqs, c_failure c = None -> forallb wreq_ok (flat_map snd reqs) = false -> batch_write lm s c reqs = (c, err_obs Validation).
 Proof. exact write_request_shape. Qed.
 
 (* an expression attribute name that no expression uses, or whose key is malformed, is rejected *)
